@@ -207,6 +207,20 @@ def rule_r2(p, res):
         want = {bw.params[1]: "warped_pixels", bw.params[2]: tr, bw.params[3]: "warp_landmarks", bw.params[4]: "return_transform"}
         got = {k: norm(v) for k, v in b.items() if isinstance(v, ast.AST)}
         r.check(got == want, ws, rets[0], "the builder must receive the warped pixels, the same transform and both flags (found %s)" % got, {"builder_args": got})
+    smp = p.own_method("Image", "sample")
+    r.instance(smp)
+    pts = smp.params[1]
+    rs = returns_of(smp.node)
+    oks = len(rs) == 1 and isinstance(rs[0].value, ast.Call) and (dotted(rs[0].value.func) or "") == "scipy_interpolation" and [norm(a) for a in rs[0].value.args[:2]] == ["self.pixels", pts]
+    r.check(oks, smp, smp.node, "Image.sample must interpolate self.pixels at the given points")
+    for kind, val, st in Defs(smp.node).of(pts):
+        if kind == "assign":
+            r.check(norm(val) == "%s.points" % pts, smp, st, "Image.sample alters the sample coordinates (`%s`) before interpolating: pixels are then taken from other positions than the ones the "
+                    "landmarks and the returned transform refer to" % norm(st)[:60], {"sample_points": norm(val)})
+    if oks:
+        for kw in ("order", "mode", "cval"):
+            v_ = kwarg(rs[0].value, kw)
+            r.check(v_ is not None and norm(v_) == kw, smp, rs[0], "Image.sample must pass %s to the interpolator" % kw)
     _check_landmark_block(r, bw, "warped_image", bw.params[2])
     v = Defs(bw.node).single("warped_image")
     r.check(v is not None and norm(v) == "Image(%s, copy=False)" % bw.params[1], bw, bw.node, "the result image must wrap the warped pixels")
@@ -550,6 +564,8 @@ WITNESSES = [
             "return self.crop(min_indices, max_indices, return_transform=return_transform)", rule="C01.R4", construct="crop_to_pointcloud"),
     Witness("C01.W11", "menpo/image/masked.py", "MaskedImage.warp_to_shape", "warp_landmarks=warp_landmarks, order=order", "warp_landmarks=False, order=order",
             rule="C01.R3", construct="MaskedImage.warp_to_shape"),
+    Witness("C01.W12", "menpo/image/base.py", "Image.sample", "return scipy_interpolation(", "if order == 0:\n        points_to_sample = points_to_sample.astype(int)\n    return scipy_interpolation(",
+            rule="C01.R2", construct="Image.sample", note="seeded change R2-C01-C"),
     Witness("C01.T1", "menpo/image/base.py", "Image.mirror", "trans.pseudoinverse()", "trans", kind="T", note="the mirror map is an involution: dropping the inverse changes nothing"),
     Witness("C01.T2", "menpo/image/base.py", "Image.warp_to_shape", "points_to_sample = transform.apply(template_points, batch_size=batch_size)\n        sampled = self.sample(points_to_sample",
             "pts = transform.apply(template_points, batch_size=batch_size)\n        points_to_sample = pts\n        sampled = self.sample(points_to_sample", kind="T"),
